@@ -5,9 +5,17 @@
   selections `(relative parts, value)` that the relative queries produce below a match (that those
   selections are the RFC nodelists is C01/C02). `T` is the intermediate dict-of-dicts, `fix` its
   compaction into arrays/objects. "The document is not modified" is an effect and is decided by the
-  before/after probe of the correspondence run. Overlapping selections are outside these theorems.
+  before/after probe of the correspondence run.
+
+  Two groups. The first (`disjoint_builds` … `relative_no_extra_leaves`) is about `patchAll`, the fragment of
+  `_patch_obj` that never walks into an already copied value; it needs prefix-disjoint selections and
+  `strict_fragment` ties it to the whole function. The second (`overlapping_*`) is about `patchAllO`, the
+  whole of `_patch_obj`, for **any** list of selections taken from the match's value - in any order, one
+  selected location a prefix of another or equal to it: every selected value is found, compacted, at its
+  location, and there are no other leaves. This is what `select` computes.
 -/
 import JP.Lemmas.Projection
+import JP.Lemmas.ProjectionOverlap
 namespace JP.Props.C19
 open JP JP.Projection JP.Lemmas
 
@@ -61,7 +69,82 @@ theorem root_spec (mparts : List Part) (mval : J) (sels : List (List Part × J))
     select .root mparts mval sels = select .relative [] mval (sels.map (fun s => (mparts ++ s.1, s.2))) :=
   Lemmas.root_is_relative_from_root mparts mval sels hc
 
+/-! ### Overlapping selections: the whole of `_patch_obj` -/
+
+/-- `patchAllO` (what `select` runs) agrees with the disjoint fragment wherever that is defined -/
+theorem strict_fragment (sels : List (List Part × J)) (kvs k : List (Part × T))
+    (h : patchAll sels kvs = some k) : patchAllO sels kvs = some k :=
+  Lemmas.patchAll_extends sels kvs k h
+
+/-- The selections a list of relative queries produces below a match: locations strictly below the match's
+    value `mval`, each with the value `mval` has there (C01/C02/C03: `match_located`). -/
+def FromMatch (mval : J) (sels : List (List Part × J)) : Prop :=
+  ∀ s ∈ sels, s.1 ≠ [] ∧ lookupJ mval s.1 = some s.2
+
+/-- **Any selections, however they overlap**: the intermediate object exists, it is a pruning of the match's
+    value, and every selected node's value is found in it by following the node's relative location … -/
+theorem overlapping_builds_and_lookup (mval : J) (sels : List (List Part × J)) (h : FromMatch mval sels) :
+    ∃ kvs', patchAllO sels [] = some kvs' ∧ Projection.Sub (.node kvs') mval ∧
+      ∀ s ∈ sels, getDeep (.node kvs') s.1 = some s.2 := by
+  obtain ⟨k, h1, h2, h3, _⟩ := Lemmas.patchAllO_sub sels [] mval (by simp [Projection.Sub.SubL]) h
+  exact ⟨k, h1, (Lemmas.sub_node k mval).2 h2, h3⟩
+
+/-- … each array index on the way replaced by its position among the indices selected in that array, down to
+    the copied value, inside which locations are kept … -/
+theorem overlapping_compaction (mval : J) (sels : List (List Part × J)) (h : FromMatch mval sels)
+    (kvs' : List (Part × T)) (hk : patchAllO sels [] = some kvs') :
+    ∀ s ∈ sels, ∃ rs, rankDeep (.node kvs') s.1 = some rs ∧ lookupJ (fix (.node kvs')) rs = some s.2 := by
+  obtain ⟨k, h1, h2, h3⟩ := overlapping_builds_and_lookup mval sels h
+  rw [hk] at h1
+  injection h1 with h1
+  subst h1
+  intro s hs
+  obtain ⟨rs, hrs⟩ := Lemmas.rankDeep_defined s.1 (.node kvs') s.2 (h3 s hs)
+  exact ⟨rs, hrs, Lemmas.fix_lookup_deep s.1 (.node kvs') rs s.2 (Lemmas.sub_homogeneous _ mval h2) (h3 s hs) hrs⟩
+
+/-- … and it contains no other leaves: every leaf of the intermediate object sits at a selected location and
+    holds the value the match has there. -/
+theorem overlapping_no_extra_leaves (mval : J) (sels : List (List Part × J)) (h : FromMatch mval sels)
+    (kvs' : List (Part × T)) (hk : patchAllO sels [] = some kvs') (qs : List Part) (x : J)
+    (hl : getPath (.node kvs') qs = some (.leaf x)) :
+    (∃ s ∈ sels, s.1 = qs) ∧ lookupJ mval qs = some x := by
+  obtain ⟨k, h1, h2, _⟩ := overlapping_builds_and_lookup mval sels h
+  rw [hk] at h1
+  injection h1 with h1
+  subst h1
+  refine ⟨?_, Lemmas.sub_getDeep qs (.node kvs') mval x h2 (Lemmas.getPath_leaf_getDeep qs _ x hl)⟩
+  rcases Lemmas.patchAllO_leafpos sels [] kvs' hk qs x hl with hs | ⟨x0, hx0⟩
+  · exact hs
+  · cases qs with
+    | nil => simp [getPath] at hx0
+    | cons a b => simp [Lemmas.getPath_nil_cons] at hx0
+
+/-- End to end: a relative projection of a container match with any non-empty list of selections taken from
+    it is produced (unless it is falsy) and holds every selected value at its compacted location. -/
+theorem overlapping_select (mparts : List Part) (mval : J) (sels : List (List Part × J))
+    (hc : mval.isContainer = true) (h : FromMatch mval sels) :
+    ∃ kvs', patchAllO sels [] = some kvs' ∧
+      select .relative mparts mval sels =
+        (if truthyJ (fix (.node kvs')) then some (some (fix (.node kvs'))) else none) ∧
+      ∀ s ∈ sels, ∃ rs, rankDeep (.node kvs') s.1 = some rs ∧ lookupJ (fix (.node kvs')) rs = some s.2 := by
+  obtain ⟨k, h1, _, _⟩ := overlapping_builds_and_lookup mval sels h
+  exact ⟨k, h1, by simp [select, hc, h1], overlapping_compaction mval sels h k h1⟩
+
 /-! ### Non-vacuity -/
+-- select("a", "a[0].x") on {"a": [{"x": 1, "y": 2}]}: the wider selection first, then one inside it
+example : FromMatch (.obj [(['a'], .arr [.obj [(['x'], .int 1), (['y'], .int 2)]])])
+    [([.key ['a']], .arr [.obj [(['x'], .int 1), (['y'], .int 2)]]), ([.key ['a'], .idx 0, .key ['x']], .int 1)] := by
+  intro s hs
+  simp only [List.mem_cons, List.mem_nil_iff, or_false] at hs
+  rcases hs with rfl | rfl <;> exact ⟨by simp, rfl⟩
+
+example : (patchAllO [([.key ['a']], .arr [.obj [(['x'], .int 1), (['y'], .int 2)]]), ([.key ['a'], .idx 0, .key ['x']], .int 1)] []).map
+      (fun k => fix (.node k)) = some (.obj [(['a'], .arr [.obj [(['x'], .int 1), (['y'], .int 2)]])]) := by rfl
+
+-- the other order: the narrower selection is replaced by the wider one
+example : (patchAllO [([.key ['a'], .idx 0, .key ['x']], .int 1), ([.key ['a']], .arr [.obj [(['x'], .int 1), (['y'], .int 2)]])] []).map
+      (fun k => fix (.node k)) = some (.obj [(['a'], .arr [.obj [(['x'], .int 1), (['y'], .int 2)]])]) := by rfl
+
 example : Disjoint [[Part.key ['a'], .idx 1], [.key ['a'], .idx 3], [.key ['b']]] := by
   simp [Disjoint, List.cons_prefix_cons]
 
